@@ -1261,7 +1261,9 @@ def c19_file(case):
     tw = None
     try:
         base_header = pytrs.Tract.get_headers(list(attrs), nh)      # (the library never gets the harness's own list)
-        headers = [base_header, base_header + ["UID"]]
+        plus_heads = ["Extra one", "extra_2"]
+        plus_vals = {1: ["lease 7", "x,\"y\""], 2: ["", "second\nline"]}
+        headers = {0: [base_header, base_header + ["UID"]], 9: [base_header + plus_heads, base_header + plus_heads + ["UID"]]}
         ident = {}
         for d, o in objs.items():
             for i, t in enumerate(o.tracts, start=1):
@@ -1282,24 +1284,30 @@ def c19_file(case):
 
         def read_back():
             if not os.path.exists(fp):
-                return [], [], True
+                return [], [], True, []
             if tw is not None and tw.is_open:
                 tw.file.flush()
             with open(fp, newline="") as f:
                 got = list(csv.reader(f))
-            rows, uids, ok = [], [], True
+            rows, uids, ok, ptags = [], [], True, []
             for r in got:
-                if r in headers:
+                if r in headers[0] or r in headers[9]:
                     rows.append([0, 0])
                     uids.append([0, 0, 0])
+                    ptags.append(9 if r in headers[9] else 0)
                     continue
                 key = (r[ti], r[di]) if len(r) > max(ti, di) else None
                 if key in ident:
                     d, i, t = ident[key]
                     rows.append([d, i])
-                    uids.append(parse_uid(r[len(attrs)]) if len(r) > len(attrs) else [0, 0, 0])
-                    if len(r) > len(attrs) + 1:          # a row is never wider than attributes + UID
-                        ok = False
+                    extras = r[len(attrs):]
+                    if extras and parse_uid(extras[-1])[0] >= 0:
+                        uids.append(parse_uid(extras[-1]))
+                        extras = extras[:-1]
+                    else:
+                        uids.append([0, 0, 0])
+                    # which additional cells: none, one of the two value sets, or something else (-1)
+                    ptags.append(0 if not extras else next((k for k, v in plus_vals.items() if extras == v), -1))
                     for j, att in enumerate(attrs):
                         val = getattr(t, att, "%s: n/a" % att)
                         if j >= len(r) or not _cell_ok(r[j], val):
@@ -1307,11 +1315,12 @@ def c19_file(case):
                 else:
                     rows.append([-1, -1])
                     uids.append([0, 0, 0])
-            return rows, uids, ok
+                    ptags.append(0)
+            return rows, uids, ok, ptags
 
         for seq, op in enumerate(a["ops"]):
-            ev = {"tid": case["id"], "seq": seq, "kind": "file", "op": op, "rows": [], "uids": [], "ret": {"kind": "none", "n": 0},
-                  "cells_ok": True, "exc": "none"}
+            ev = {"tid": case["id"], "seq": seq, "kind": "file", "op": op, "rows": [], "uids": [], "ptags": [],
+                  "ret": {"kind": "none", "n": 0}, "cells_ok": True, "exc": "none"}
             try:
                 name = op["name"]
                 if name == "start":
@@ -1320,9 +1329,11 @@ def c19_file(case):
                 elif name == "csv":
                     objs[op["d"]].tracts_to_csv(list(attrs), fp, op["mode"], nice_headers=nh)
                 elif name == "winit":
-                    tw = TractWriter(list(attrs), fp, op["mode"], nice_headers=nh, uid=(op["d"] or None))
+                    tw = TractWriter(list(attrs), fp, op["mode"], nice_headers=nh, uid=(op["d"] or None),
+                                     plus_cols=(list(plus_heads) if op.get("p") else None))
                 elif name == "wwrite":
-                    n = tw.write(objs[op["d"]] if op["d"] else None)
+                    pv = plus_vals.get(op.get("p", 0))
+                    n = tw.write(objs[op["d"]] if op["d"] else None, plus_cols=(list(pv) if pv else None))
                     ev["ret"] = {"kind": "count", "n": n}
                 elif name == "wclose":
                     tw.close()
@@ -1331,7 +1342,7 @@ def c19_file(case):
             except Exception as e:  # noqa
                 ev["exc"] = type(e).__name__
                 ev["exc_msg"] = str(e)[:200]
-            ev["rows"], ev["uids"], ev["cells_ok"] = read_back()
+            ev["rows"], ev["uids"], ev["cells_ok"], ev["ptags"] = read_back()
             events.append(ev)
     finally:
         try:
